@@ -22,6 +22,17 @@ func mergeValue(c *smt.Term, a, b Value) (Value, bool) {
 		if !ok {
 			return nil, false
 		}
+		if x.Num != nil || y.Num != nil || x.FNum != nil || y.FNum != nil || x.Fmt != nil || y.Fmt != nil {
+			if x.S != y.S || x.Num != y.Num || x.FNum != y.FNum || x.Code != y.Code || len(x.Fmt) != len(y.Fmt) {
+				return nil, false
+			}
+			for i := range x.Fmt {
+				if x.Fmt[i] != y.Fmt[i] {
+					return nil, false
+				}
+			}
+			return x, true
+		}
 		if x.Code == nil && y.Code == nil {
 			return x, x.S == y.S
 		}
